@@ -24,6 +24,7 @@ def mutants(prog):
     from .common import source_sub
     Fm, Im = "deepali.core.flow", "deepali.core.image"
     specs = [
+        ('jacobian_matrix: first item for every batch entry', 'deepali.core.flow', 'jacobian_matrix', 'jac = torch.cat(list(deriv.values()), dim=1)', 'jac = torch.cat([v[0:1].expand(v.shape) for v in deriv.values()], dim=1)', 'T5.jacobian'),
         ("det2 sign", Fm, "jacobian_det", "a.mul(d).sub_(b.mul(c))", "a.mul(d).add_(b.mul(c))", "T5.jacobian"),
         ("det3 inplace corruption", Fm, "jacobian_det", "term_1 = a.mul(e.mul(i).sub_(f.mul(h)))", "term_1 = a.mul(e.mul_(i).sub_(f.mul(h)))", "T5.jacobian"),
         ("curl pairing", Fm, "curl", "deriv['du/dz'].sub(deriv['dw/dx'])", "deriv['dw/dx'].sub(deriv['du/dz'])", "T5.jacobian"),
